@@ -26,6 +26,9 @@ fn judge(cfg: u8, cache: bool, k: i64, other: bool, par: bool, o: &C10Outcome, o
         bad.push(format!("publish returned Ok but the epoch is {} (was {})", o.epoch_after, o.epoch_before));
     } else if !o.final_matches_reference {
         bad.push("publish returned Ok although a storage operation failed, and the resulting root hash is not the fault-free one".to_string());
+    } else if k < o.ops_in_publish {
+        // the statement: if ANY read of the publish fails, the call returns an error
+        bad.push(format!("publish returned Ok although its storage operation #{k} failed (a swallowed read failure)"));
     }
     for b in bad {
         out.push(Failure {
@@ -76,19 +79,21 @@ pub fn search(_seed: u64, _full: bool, rt: &tokio::runtime::Runtime) -> SearchRe
         }
     }
     for cfg in 0..2u8 {
-        for cache in [false, true] {
+        for (cache, cold) in [(false, false), (true, false), (true, true)] {
+            akd::vx_export::C10_COLD_CACHE.store(cold, std::sync::atomic::Ordering::SeqCst);
             // the number of operations of the fault-free call bounds k
             for par in [false, true] {
                 let total = match outcome(cfg, cache, i64::MAX, false, par, rt) { Some(o) => o.ops_in_publish, None => 0 };
                 for k in 0..total {
                     for other in [false, true] {
-                        if let Some(o) = outcome(cfg, cache, k, other, par, rt) { n += 1; judge(cfg, cache, k, other, par, &o, &mut out); }
+                        if let Some(o) = outcome(cfg, cache, k, other, par, rt) { n += 1; let before = out.len(); judge(cfg, cache, k, other, par, &o, &mut out); if cold { for f in out[before..].iter_mut() { f.case.push("cold".into()); f.input.push_str(" (the cache is flushed right before the faulty call)"); } } }
                     }
                 }
             }
         }
     }
-    SearchResult { evaluations: n, failures: out, summary: "BOUNDED: parallel insertion of 24-label batches with every single fault of the second publish (no task may outlive a failed publish); one two-epoch history, every single database-operation fault of the second publish, followed by the same or by a different batch, with/without cache, both configurations".into() }
+    akd::vx_export::C10_COLD_CACHE.store(false, std::sync::atomic::Ordering::SeqCst);
+    SearchResult { evaluations: n, failures: out, summary: "BOUNDED: parallel insertion of 24-label batches with every single fault of the second publish (no task may outlive a failed publish); one two-epoch history, every single database-operation fault of the second publish, followed by the same or by a different batch, without cache / warm cache / cache flushed right before the faulty call, both configurations; a publish that returns Ok although one of its storage operations failed is a failure too".into() }
 }
 
 pub fn replay(case: &[&str], rt: &tokio::runtime::Runtime) -> (bool, String) {
@@ -100,6 +105,7 @@ pub fn replay(case: &[&str], rt: &tokio::runtime::Runtime) -> (bool, String) {
     let (cfg, cache, k): (u8, bool, i64) = (case[0].parse().unwrap(), case[1] == "1", case[2].parse().unwrap());
     let other = case.get(3).map(|s| *s == "1").unwrap_or(false);
     let par = case.get(4).map(|s| *s == "1").unwrap_or(false);
+    akd::vx_export::C10_COLD_CACHE.store(case.get(5).map(|s| *s == "cold").unwrap_or(false), std::sync::atomic::Ordering::SeqCst);
     let mut out = vec![];
     if let Some(o) = outcome(cfg, cache, k, other, par, rt) { judge(cfg, cache, k, other, par, &o, &mut out); }
     match out.first() { Some(f) => (true, format!("{}: expected {}, observed {}", f.input, f.expected, f.observed)), None => (false, "holds".into()) }
